@@ -9,7 +9,7 @@ From OV.gen Require Import Gen_ConstrainedObjective Gen_AlSolver Gen_BoundConstr
 From OV.model Require Import M_C04_AL.
 From OV.model Require Import M_C19_CFG.
 From OV.gen Require Import CFG_drivers.
-From OV.proofs Require Import L_C04 L_C04_CFG L_C04_Upd.
+From OV.proofs Require Import L_C04 L_C04_CFG L_C04_Upd L_C04_Cvx L_C04_Newton.
 Import ListNotations.
 Local Open Scope list_scope.
 Local Open Scope R_scope.
@@ -127,6 +127,70 @@ Theorem C04_approx_KKT_is_near_min : forall (V : Type) (f : V -> R) (df : V -> V
   d <= (eg + sqrt (eg * eg + 4 * mu * (comp_slack V x cons + weighted_violation V x cons_s))) / (2 * mu).
 Proof. exact approx_KKT_is_near_min. Qed.
 
+(* ---- the convex clause over LISTS OF R (vectors of length n, gradients as lists, pairing = dot product), tied to the solver's return.
+   Problem (f, gf, cs): objective with gradient, constraints c_i >= 0 with gradients (cfun = (c_i, grad c_i)); differentiable-convex
+   interface: dconvex / dstrict / dstrong n f gf, dconcave n (c_i, grad c_i) -- first-order inequalities between vectors of length n.
+   passes_test n gf cs t x lam kappa kappa0: lam, kappa >= 0, kappa0 > 0, |grad_x AL(x; lam, kappa)| < t with
+   grad_x AL = grad f - sum_i max(lam_i - kappa_i c_i, 0) grad c_i (al_gradient; the effective multipliers are the GENERATED update
+   statement), and the Fischer-Burmeister rows of C04_return_is_KKT.  Every normal return of the outer-loop model whose oracles AT THE
+   RETURNED POINT are this problem's constraint values and AL gradient passes it (arbitrary sub-problem solver / second-order update): *)
+Theorem C04_return_passes_test_of_the_problem : forall n (gf : list R -> list R) (cs : list cfun)
+    (cfg : @settings R) (orc : @oracles R) kappa0 x0 lam0 kap0 x lam kappa ev,
+  al_solve cfg orc kappa0 x0 lam0 kap0 = (Returned x lam kappa, ev) ->
+  1 <= penalty_scaling cfg -> nonneg kap0 -> List.Forall (fun a => 0 < a) kappa0 ->
+  length x = n -> length lam = length cs -> length kappa = length cs -> length kappa0 = length cs ->
+  (forall it, constraint orc it Sub x = cvals cs x) ->
+  (forall it, gradAL orc it Sub x lam kappa = al_gradient gf cs x lam kappa) ->
+  passes_test n gf cs (tol cfg) x lam kappa kappa0.
+Proof. exact al_solve_return_passes_test. Qed.
+(* convex objective, concave constraints: a point that passes the test is tol-optimal against EVERY feasible point ... *)
+Theorem C04_convex_return_gap : forall n f gf (cs : list cfun), grad_len n gf -> List.Forall (dconcave n) cs ->
+  forall t x lam kappa kappa0, dconvex n f gf -> passes_test n gf cs t x lam kappa kappa0 ->
+  forall y, length y = n -> feasible_l cs y ->
+  f x - f y <= t * @norm2 R NumR (vsub y x) + t / (2 - sqrt 2) * slack_sum (cvals cs x) lam kappa0.
+Proof. exact passes_test_gap. Qed.
+(* ... and (it may violate constraints by < tol/kappa0) not much better than the constrained minimum either *)
+Theorem C04_convex_return_lower : forall n f gf (cs : list cfun), grad_len n gf -> List.Forall (dconcave n) cs ->
+  forall t x lam kappa kappa0 xs ls, dconvex n f gf -> passes_test n gf cs t x lam kappa kappa0 -> kkt_point n gf cs xs ls ->
+  f xs - f x <= t * mult_sum ls kappa0.
+Proof. exact passes_test_lower. Qed.
+(* mu-strongly convex objective: explicit O(sqrt tol) distance to the constrained minimiser, all constants from the termination test *)
+Theorem C04_strongly_convex_return_near_min : forall n f gf (cs : list cfun), grad_len n gf -> List.Forall (dconcave n) cs ->
+  forall t mu x lam kappa kappa0 xs ls, 0 < mu -> dstrong n mu f gf ->
+  passes_test n gf cs t x lam kappa kappa0 -> kkt_point n gf cs xs ls ->
+  @norm2 R NumR (vsub x xs)
+    <= (t + sqrt (t * t + 4 * mu * (t / (2 - sqrt 2) * slack_sum (cvals cs x) lam kappa0 + t * mult_sum ls kappa0))) / (2 * mu).
+Proof. exact passes_test_near_min. Qed.
+(* tol = 0 over lists: exact KKT point (vector stationarity grad f = sum ls_i grad c_i) = global constrained minimiser; unique if strict *)
+Theorem C04_kkt_point_is_min_lists : forall n f gf (cs : list cfun), grad_len n gf -> List.Forall (dconcave n) cs ->
+  forall xs ls, dconvex n f gf -> kkt_point n gf cs xs ls ->
+  feasible_l cs xs /\ forall y, length y = n -> feasible_l cs y -> f xs <= f y.
+Proof. exact kkt_point_is_min. Qed.
+Theorem C04_kkt_point_is_unique_min_lists : forall n f gf (cs : list cfun), grad_len n gf -> List.Forall (dconcave n) cs ->
+  forall xs ls, dstrict n f gf -> kkt_point n gf cs xs ls ->
+  forall y, length y = n -> feasible_l cs y -> y <> xs -> f xs < f y.
+Proof. exact kkt_point_is_unique_min. Qed.
+(* headline: solver return on a convex problem => tol-optimal *)
+Theorem C04_convex_solve_returns_tol_optimal : forall n f gf (cs : list cfun), grad_len n gf -> List.Forall (dconcave n) cs ->
+  forall (cfg : @settings R) (orc : @oracles R) kappa0 x0 lam0 kap0 x lam kappa ev,
+  al_solve cfg orc kappa0 x0 lam0 kap0 = (Returned x lam kappa, ev) ->
+  1 <= penalty_scaling cfg -> nonneg kap0 -> List.Forall (fun a => 0 < a) kappa0 ->
+  length x = n -> length lam = length cs -> length kappa = length cs -> length kappa0 = length cs ->
+  (forall it, constraint orc it Sub x = cvals cs x) ->
+  (forall it, gradAL orc it Sub x lam kappa = al_gradient gf cs x lam kappa) ->
+  dconvex n f gf ->
+  forall y, length y = n -> feasible_l cs y ->
+  f x - f y <= tol cfg * @norm2 R NumR (vsub y x) + tol cfg / (2 - sqrt 2) * slack_sum (cvals cs x) lam kappa0.
+Proof. exact al_solve_convex_return_tol_optimal. Qed.
+(* Cauchy-Schwarz for the model's norm (np.linalg.norm) *)
+Theorem C04_cauchy_schwarz : forall a b, Rabs (dot a b) <= @norm2 R NumR a * @norm2 R NumR b.
+Proof. exact abs_dot_le. Qed.
+Example C04_convex_lists_nonvacuous :
+  grad_len 1 ex_gf /\ dstrong 1 2 ex_f ex_gf /\ dconvex 1 ex_f ex_gf /\ dstrict 1 ex_f ex_gf /\ List.Forall (dconcave 1) [ex_c]
+  /\ kkt_point 1 ex_gf [ex_c] [1] [2]
+  /\ passes_test 1 ex_gf [ex_c] (1 / 10) [1] [2] [1] [1].
+Proof. exact cvx_nonvacuous. Qed.
+
 Theorem C04_product_from_min : forall c l k, 0 < k -> 0 <= c -> 0 <= l -> l * c = Rmin (c * k) l * Rmax (c * k) l / k.
 Proof. exact product_from_min. Qed.
 (* ---- the state updates over GENERATED code: the three update statements of AlSolver.solve_sub_step are regenerated from the source
@@ -198,10 +262,20 @@ Example C04_paths_nonvacuous :
 Proof. exact al_paths_nonvacuous. Qed.
 
 (* NOT PROVED: convergence (that the loop returns at all): NotConverged (the NameError exit) is a legitimate outcome.
-   NOT MODELLED (oracles / tested only): the sub-problem solver, linear_update (GMRES), the warm-start increment, jax autodiff of the AL
-   function; the `np.any(poorProgress) and solverSuccess` guard and the evaluation order of solve_sub_step are hand-modelled (trace
-   correspondence), only its three update statements are generated code.  bc_solve (bound-constrained front end) is a hand model tied by
-   checks on real runs and the control-flow IR, not by an executed trace correspondence. *)
+   NOT PROVED: that grad_x of the jax-differentiated AL function IS al_gradient (grad f - sum_i max(lam_i - kappa_i c_i, 0) grad c_i): it is
+   the oracle hypothesis of the convex-clause theorems over lists (C04_return_passes_test_of_the_problem); its scalar core is proved
+   (C04_al_penalty_C1: derivative of the penalty in c is -max(lam - kappa c, 0)), the chain rule through c(x) and the sum over constraints is
+   JAX autodiff, MEASURED on every convex end-to-end return (alObjective.gradient(x) against grad f - J^T max(lam - kappa c, 0)).
+   The convex clause itself (tol-optimality against every feasible point, lower side, distance to the unique minimiser under strong
+   convexity, exact case tol = 0 with uniqueness) is now proved over lists of R and tied to the return of the outer-loop model; what
+   remains a hypothesis there is convexity/concavity of the user's functions in the first-order sense (dconvex/dconcave).
+   NOT MODELLED (oracles / tested only): the sub-problem solver, linear_update (GMRES: newton_step is an oracle returning (s, exitcode) in
+   both the AL model and the globalized_newton_step model; no contract on the GMRES answer is assumed or proved), the warm-start
+   increment, jax autodiff of the AL function; the `np.any(poorProgress) and solverSuccess` guard and the evaluation order of
+   solve_sub_step are hand-modelled (trace correspondence), only its three update statements are generated code.  bc_solve
+   (bound-constrained front end) is a hand model tied by checks on real runs and the control-flow IR, not by an executed trace
+   correspondence.  globalized_newton_step is a hand model tied by an executed correspondence (result, number of tests, slope and
+   residual evaluations) on the real function with newton_step scripted; it is imported but never called by AlSolver. *)
 
 (* bound-constrained front end (BoundConstrainedObjective): per constrained dof, with d = scaling > 0, scaled gradient g/d, scaled
    bound d*x >= 0 and multiplier lam, KKT in the scaled variables <=> KKT in the original variables with the multiplier d*lam
@@ -218,6 +292,24 @@ Theorem C04_compute_min_p_minimises : forall p0 p1 p2 b0 b1, b0 <= b1 -> 0 < p1 
   let q := fun s => (p1 - p0 - p2) * s * s + p2 * s + p0 in
   forall s, b0 <= s <= b1 -> q (@compute_min_p R NumR p0 p1 p2 b0 b1) <= q s.
 Proof. exact compute_min_p_minimises. Qed.
+
+(* NewtonSolver.globalized_newton_step (hand model, Section GNewton of model/M_C04_AL.v, tied by an executed correspondence on the real
+   function; oracles: residual, the GMRES Newton step, the directional slope from jax).  Descent lemma: whenever a step is returned,
+   GMRES did not report failure, the step is the Newton step scaled by c in [0.01^k, 0.5^k] after k < maxLinesearchIters cutbacks
+   (every factor from compute_min_p on [0.01, 0.5]), the forcing term in force satisfies etak <= etak' < 1, and the residual energy
+   0.5|r|^2 at x+s is below (1 - t(1 - etak')) times the one at x -- in particular strictly below it. *)
+Theorem C04_globalized_newton_descent : forall (orc : @gn_oracles R) x etak t maxLs s ev,
+  globalized_newton_step orc x etak t maxLs = (Some s, ev) -> 0 < t -> etak < 1 ->
+  snd (gn_newton orc) = false
+  /\ exists k c etak', (k < maxLs)%nat /\ s = @vscale R NumR c (fst (gn_newton orc)) /\ (1 / 100) ^ k <= c <= (1 / 2) ^ k
+     /\ etak <= etak' < 1
+     /\ renergy (gn_res orc (S k) (@vadd R NumR x s)) < (1 - t * (1 - etak')) * renergy (gn_res orc 0 x)
+     /\ renergy (gn_res orc (S k) (@vadd R NumR x s)) < renergy (gn_res orc 0 x).
+Proof. exact gn_descent. Qed.
+Example C04_globalized_newton_nonvacuous :
+  let orc := {| gn_res := fun site _ => match site with O => [2] | _ => [1] end; gn_newton := ([1], false); gn_slope := fun _ _ => -1 |} in
+  exists ev, @globalized_newton_step R NumR orc [0] (1 / 1000) (1 / 10000) 4 = (Some [1], ev).
+Proof. exact gn_nonvacuous. Qed.
 
 Example C04_nonvacuous : Rabs (FB 0 3 2) <= 0 /\ FB 1 0 5 = 0.
 Proof. exact C04_nonvacuous_fb. Qed.
@@ -240,3 +332,5 @@ Print Assumptions C04_return_is_KKT.
 Print Assumptions C04_convex_KKT_is_min.
 Print Assumptions C04_approx_KKT_is_near_min.
 Print Assumptions C04_bound_constrained_return.
+Print Assumptions C04_convex_solve_returns_tol_optimal.
+Print Assumptions C04_globalized_newton_descent.
